@@ -679,10 +679,8 @@ func (k Keeper) ValidateUnjailMessage(ctx sdk.Ctx, msg types.MsgUnjail) (addr sd
 	if !found {
 		return nil, types.ErrNoValidatorForAddress(k.Codespace())
 	}
-	if info.JailedUntil.After(time.Now()) {
-		return nil, types.ErrValidatorJailed(k.Codespace())
-	}
-	// cannot be unjailed until out of jail
+	// cannot be unjailed until out of jail. NOTE: only the block time is consulted; the local
+	// wall clock differs from node to node and must not decide the result of a transaction.
 	if ctx.BlockHeader().Time.Before(info.JailedUntil) {
 		return nil, types.ErrValidatorJailed(k.Codespace())
 	}
